@@ -61,6 +61,9 @@ func groupingAlphabet(gt string, L [][]string, fresh []string) []EOp {
 		EOp{Kind: "upd", Sec: "g", PType: gt, Rule: L[0], New: fresh},
 		EOp{Kind: "upd", Sec: "g", PType: gt, Rule: L[1], New: L[3]},
 		EOp{Kind: "upds", Sec: "g", PType: gt, Rules: [][]string{L[0], L[1]}, News: [][]string{fresh, L[3]}},
+		// a link on both sides of an update: the order of unlinking and linking becomes observable
+		EOp{Kind: "upd", Sec: "g", PType: gt, Rule: L[0], New: L[0]},
+		EOp{Kind: "upds", Sec: "g", PType: gt, Rules: [][]string{L[0], L[1]}, News: [][]string{L[2], L[0]}},
 		EOp{Kind: "rmf", Sec: "g", PType: gt, FI: 0, Vals: []string{L[0][0]}},
 		EOp{Kind: "rmf", Sec: "g", PType: gt, FI: 1, Vals: []string{L[1][1]}},
 		EOp{Kind: "clear"}, EOp{Kind: "load"}, EOp{Kind: "save"},
@@ -74,7 +77,7 @@ func runC05(c *Ctx) {
 		depth = 4
 	}
 	c.Exhaustive = true
-	c.Rule = fmt.Sprintf("all histories of depth <= %d over 19 grouping-policy calls (single, batch, Ex, update, batch update, filtered removal, ClearPolicy, LoadPolicy, SavePolicy) on a 3-name universe, for the plain manager, the domain manager (2 domains) and two role definitions (g, g2), with an auto-saving adapter; after every call HasLink over the whole universe, GetRoles, GetUsers and the listed grouping rules are compared with the Lean model and with reachability through the listed rules (spec); plus seeded random histories incl. over-long rules; non-trivial = some call changed the graph and some call was refused; distinct = whole history", depth)
+	c.Rule = fmt.Sprintf("all histories of depth <= %d over 21 grouping-policy calls (single, batch, Ex, update, batch update, filtered removal, ClearPolicy, LoadPolicy, SavePolicy) on a 3-name universe, for the plain manager, the domain manager (2 domains) and two role definitions (g, g2), with an auto-saving adapter; after every call HasLink over the whole universe, GetRoles, GetUsers and the listed grouping rules are compared with the Lean model and with reachability through the listed rules (spec); plus seeded random histories incl. over-long rules; non-trivial = some call changed the graph and some call was refused; distinct = whole history", depth)
 	names := []string{"a", "b", "c"}
 	// plain manager
 	L := [][]string{{"a", "b"}, {"b", "c"}, {"c", "a"}, {"a", "c"}}
@@ -90,7 +93,22 @@ func runC05(c *Ctx) {
 	}
 	enumerate(c, cfgD)
 	// two role definitions: links of g must not leak into g2 and vice versa
-	alpha2 := append(groupingAlphabet("g", L, []string{"b", "a"})[:10], groupingAlphabet("g2", L, []string{"b", "a"})[:10]...)
+	// the same links in both definitions, so that an operation reaching the wrong manager is visible
+	var alpha2 []EOp
+	for _, gt := range []string{"g", "g2"} {
+		for _, o := range groupingAlphabet(gt, L, []string{"b", "a"}) {
+			switch o.Kind {
+			case "clear", "load", "save":
+			default:
+				if o.Kind == "add" || o.Kind == "rm" {
+					if o.Rule[0] != "a" { // keep the alphabet small: a->b, a->c
+						continue
+					}
+				}
+				alpha2 = append(alpha2, o)
+			}
+		}
+	}
 	alpha2 = append(alpha2, EOp{Kind: "clear"}, EOp{Kind: "load"})
 	cfg2 := &HistCfg{Name: "g+g2", MS: rbacSpec(false, true), Opts: CaseOpts{Adapter: true}, Depth: 2,
 		Alphabet: alpha2, Probes: append(linkProbes("g", names, nil), linkProbes("g2", names, nil)...)}
